@@ -1336,3 +1336,160 @@ def risk(stmt, ds=None):
     if stmt.kind == "merge" and stmt.extra["source"].kind == "derived":
         walk_query(stmt.extra["source"].query)
     return {k: sorted(v) for k, v in out.items()}
+
+
+# --------------------------------------------------------------------------- alpha renaming of statement-local names (C08)
+def walk(stmt):
+    """yield every Select, With and expression-bearing node of a statement"""
+    seen = []
+
+    def wq(q):
+        if q is None:
+            return
+        seen.append(q)
+        if isinstance(q, With):
+            for _, c in q.ctes:
+                wq(c)
+            wq(q.body)
+        elif isinstance(q, SetOp):
+            for b in q.branches:
+                wq(b)
+        else:
+            for s in q.subqueries():
+                wq(s)
+
+    wq(stmt.query)
+    if stmt.kind == "update":
+        e = stmt.extra
+        for g in e.get("from") or []:
+            for rel in g.rels():
+                if rel.kind == "derived":
+                    wq(rel.query)
+        if e.get("where") is not None:
+            for s in e["where"].subqueries():
+                wq(s)
+        for _, ex in e["set"]:
+            for s in ex.subqueries():
+                wq(s)
+    if stmt.kind == "merge" and stmt.extra["source"].kind == "derived":
+        wq(stmt.extra["source"].query)
+    return seen
+
+
+def all_rels(stmt):
+    out = []
+    for q in walk(stmt):
+        if isinstance(q, Select):
+            out += [(q, rel) for rel in q.rels()]
+    if stmt.kind == "update":
+        for g in stmt.extra.get("from") or []:
+            out += [(None, rel) for rel in g.rels()]
+    if stmt.kind == "merge":
+        out.append((None, stmt.extra["source"]))
+    return out
+
+
+def all_exprs(stmt):
+    out = []
+
+    def we(e):
+        out.append(e)
+        for k in e.kids:
+            we(k)
+
+    def wp(p):
+        if p is None:
+            return
+        if p.colref is not None:
+            we(p.colref)
+        for k in p.kids:
+            wp(k)
+
+    for q in walk(stmt):
+        if isinstance(q, Select):
+            for it in q.items:
+                if not it.is_star:
+                    we(it.expr)
+            wp(q.where)
+            wp(q.having)
+            for c in q.group_by or []:
+                we(c)
+    if stmt.kind == "update":
+        for _, ex in stmt.extra["set"]:
+            we(ex)
+        wp(stmt.extra.get("where"))
+    return out
+
+
+def alpha_rename(stmt, rnd, mode="rename", pool=()):
+    """returns (renamed deep copy, {old local name -> new local name}); mode in rename | toggle_as | add_alias | drop_alias"""
+    import copy
+
+    st = copy.deepcopy(stmt)
+    rels = all_rels(st)
+    exprs = all_exprs(st)
+    stars = [it for q in walk(st) if isinstance(q, Select) for it in q.items if it.is_star and it.star_q]
+    mapping = {}
+    if mode == "toggle_as":
+        for _, rel in rels:
+            if getattr(rel, "alias", None):
+                rel.use_as = not rel.use_as
+        return st, mapping
+    used = {rel.key() for _, rel in rels} | {rel.name for _, rel in rels if rel.kind in ("base", "cte")}
+    withs = [q for q in walk(st) if isinstance(q, With)]
+
+    def fresh(avoid):
+        cands = [p for p in pool if p.lower() not in avoid and p.lower() not in {v.lower() for v in mapping.values()}]
+        if cands and rnd.random() < 0.7:
+            return rnd.choice(cands)
+        while True:
+            n = f"zr{rnd.randrange(10 ** 6)}"
+            if n not in avoid:
+                return n
+
+    if mode == "rename":
+        for sel, rel in rels:
+            if getattr(rel, "alias", None) and rel.alias not in mapping:
+                # names visible in this FROM scope: the keys of its relations (a table that is aliased away is not visible by its bare name)
+                scope = {r.key().lower() for r in sel.rels()} if sel is not None else set(x.lower() for x in used)
+                if st.target is not None:
+                    scope.add(st.target.name.lower())
+                local = {k.lower() for k in used if not k.startswith("tb_k")}  # other aliases / CTE names anywhere in the statement
+                mapping[rel.alias] = fresh(scope | local)
+        for w in withs:
+            for n, _ in w.ctes:
+                if n not in mapping:
+                    mapping[n] = fresh({u.lower() for u in used})
+    elif mode == "drop_alias":
+        for sel, rel in rels:
+            if rel.kind == "base" and rel.alias and sel is not None:
+                others = [r for r in sel.rels() if r is not rel]
+                if all(r.key() != rel.name and getattr(r, "name", None) != rel.name for r in others) and rnd.random() < 0.7:
+                    mapping[rel.alias] = rel.name
+    elif mode == "add_alias":
+        for sel, rel in rels:
+            if rel.kind == "base" and not rel.alias and rnd.random() < 0.7:
+                if sum(1 for _, r in rels if r.kind == "base" and r.name == rel.name) == 1:
+                    mapping[rel.name] = fresh({u.lower() for u in used})
+    # apply
+    for _, rel in rels:
+        if mode == "drop_alias":
+            if rel.kind == "base" and rel.alias in mapping:
+                rel.alias = None
+        elif mode == "add_alias":
+            if rel.kind == "base" and not rel.alias and rel.name in mapping:
+                rel.alias = mapping[rel.name]
+        else:
+            if getattr(rel, "alias", None) in mapping:
+                rel.alias = mapping[rel.alias]
+            if rel.kind == "cte" and rel.name in mapping:
+                rel.name = mapping[rel.name]
+    for w in withs:
+        w.ctes = [(mapping.get(n, n), q) for n, q in w.ctes]
+    for e in exprs:
+        if e.kind == "col" and e.q in mapping:
+            e.q = mapping[e.q]
+    for it in stars:
+        if it.star_q in mapping:
+            it.star_q = mapping[it.star_q]
+    return st, mapping
